@@ -251,3 +251,237 @@ Lemma parseHost_Er idna_raw c u input ns u' e :
   parseHost idna_raw c u input ns = Er u' e ->
   u_path u' = u_path u /\ u_opaque u' = u_opaque u /\ u_query u' = u_query u.
 Proof. intros H. pose proof (R_parseHost idna_raw c u input ns) as HR. rewrite H in HR. apply sh_inv. exact HR. Qed.
+
+(* ------------------------------------------------------------------------------------------ *)
+(* 2. The invariant of the state machine                                                       *)
+(* ------------------------------------------------------------------------------------------ *)
+
+(* the states a run under a state override can be in *)
+Definition ov_ok (st : state) : bool :=
+  match st with
+  | SchemeStart | Scheme | HostSt | HostnameSt | FileHost | PortSt | PathStart | PathSt | QuerySt | FragmentSt => true
+  | _ => false
+  end.
+
+(* what is guaranteed of a record that leaves the parser *)
+Definition Fin (override : option state) (u : url) : Prop :=
+  wf u /\ (override = Some QuerySt -> u_query u <> None).
+
+Definition J (base : option url) (override : option state) (m : mstate) : Prop :=
+  let st := m_state m in
+  let u := m_url m in
+  m_eof m = false /\
+  match st with QuerySt => u_query u <> None | _ => True end /\
+  match override with
+  | None =>
+      match st with Relative | RelativeSlash | SpecialRelativeOrAuthority => base <> None | _ => True end /\
+      match st with PathSt => True | _ => wf u end
+  | Some ov =>
+      ov_ok st = true /\ wf u /\
+      match st with PathStart | PathSt => u_opaque u = false | _ => True end /\
+      (st = QuerySt \/ ov <> QuerySt)
+  end.
+
+Definition Post (base : option url) (override : option state) (o : outcome) : Prop :=
+  match o with
+  | Panic => False
+  | Cont m' => (m_eof m' = false -> J base override m') /\ (m_eof m' = true -> Fin override (m_url m'))
+  | RetUrl u => Fin override u
+  | RetErr u _ => is_some override = true -> Fin override u
+  | RetNilNil u => is_some override = true /\ Fin override u
+  end.
+
+Lemma replaceLast_path {X} (a b d : bool) (p : list X) :
+  negb (a && b && negb (is_nil p) && d) = false -> p <> [].
+Proof.
+  destruct p as [|y p]; cbn [is_nil negb]; [|discriminate].
+  rewrite andb_false_r. discriminate.
+Qed.
+Lemma replace_last_nonnil {X} (a b d : bool) (p : list X) (x : X) :
+  negb (a && b && negb (is_nil p) && d) = false -> replace_last p x <> [].
+Proof.
+  intros H. apply replaceLast_path in H. destruct p as [|y [|z p]]; cbn; congruence.
+Qed.
+
+Lemma sh_cleanDefaultPort c u : sh (cleanDefaultPort c u) = sh u.
+Proof.
+  unfold cleanDefaultPort. destruct (getSpecialScheme c (u_scheme u)); [|reflexivity].
+  destruct (u_port u); [|reflexivity]. destruct (str_eqb _ _); reflexivity.
+Qed.
+Lemma path_cleanDefaultPort c u : u_path (cleanDefaultPort c u) = u_path u.
+Proof. pose proof (sh_cleanDefaultPort c u) as H. apply sh_inv in H. tauto. Qed.
+Lemma opaque_cleanDefaultPort c u : u_opaque (cleanDefaultPort c u) = u_opaque u.
+Proof. pose proof (sh_cleanDefaultPort c u) as H. apply sh_inv in H. tauto. Qed.
+Lemma query_cleanDefaultPort c u : u_query (cleanDefaultPort c u) = u_query u.
+Proof. pose proof (sh_cleanDefaultPort c u) as H. apply sh_inv in H. tauto. Qed.
+
+Section Step.
+  Variable idna_raw : str -> str * bool.
+  Variable c : cfg.
+  Variable inp : list rune.
+
+  Notation stepf := (step idna_raw c inp).
+
+  Lemma P_mherr base override u t f k :
+    (is_some override = true -> Fin override u) ->
+    (forall u', u_path u' = u_path u -> u_opaque u' = u_opaque u -> u_query u' = u_query u -> Post base override (k u')) ->
+    Post base override (mherr c u t f k).
+  Proof.
+    intros Hfin Hk. unfold mherr. pose proof (sh_handleError c u t f) as Hs. apply sh_inv in Hs.
+    destruct (handleError c u t f) as [u' [e|]]; cbn [fst] in Hs; destruct Hs as (Hp & Ho & Hq).
+    - cbn. intros Hov. destruct (Hfin Hov) as [Hw Hqq]. unfold Fin, wf. rewrite Hp, Ho, Hq. auto.
+    - apply Hk; assumption.
+  Qed.
+
+  Lemma P_mherr_true base override u t k :
+    (is_some override = true -> Fin override u) ->
+    Post base override (mherr c u t true k).
+  Proof.
+    intros Hfin. unfold mherr. pose proof (sh_handleError c u t true) as Hs. apply sh_inv in Hs.
+    pose proof (handleError_true c u t) as Ht.
+    destruct (handleError c u t true) as [u' [e|]]; cbn [fst snd] in *; destruct Hs as (Hp & Ho & Hq).
+    - cbn. intros Hov. destruct (Hfin Hov) as [Hw Hqq]. unfold Fin, wf. rewrite Hp, Ho, Hq. auto.
+    - congruence.
+  Qed.
+
+  (* the value read at the end of the input *)
+  Lemma re_35 : (rune_error =? 35) = false. Proof. reflexivity. Qed.
+  Lemma re_37 : (rune_error =? 37) = false. Proof. reflexivity. Qed.
+  Lemma re_43 : (rune_error =? 43) = false. Proof. reflexivity. Qed.
+  Lemma re_45 : (rune_error =? 45) = false. Proof. reflexivity. Qed.
+  Lemma re_46 : (rune_error =? 46) = false. Proof. reflexivity. Qed.
+  Lemma re_47 : (rune_error =? 47) = false. Proof. reflexivity. Qed.
+  Lemma re_58 : (rune_error =? 58) = false. Proof. reflexivity. Qed.
+  Lemma re_63 : (rune_error =? 63) = false. Proof. reflexivity. Qed.
+  Lemma re_64 : (rune_error =? 64) = false. Proof. reflexivity. Qed.
+  Lemma re_91 : (rune_error =? 91) = false. Proof. reflexivity. Qed.
+  Lemma re_92 : (rune_error =? 92) = false. Proof. reflexivity. Qed.
+  Lemma re_93 : (rune_error =? 93) = false. Proof. reflexivity. Qed.
+  Lemma re_alpha : isAlpha rune_error = false. Proof. vm_compute. reflexivity. Qed.
+  Lemma re_alnum : isAlnum rune_error = false. Proof. vm_compute. reflexivity. Qed.
+  Lemma re_digit : isDigit rune_error = false. Proof. vm_compute. reflexivity. Qed.
+
+  Ltac pwalk :=
+    repeat first
+      [ progress cbv beta
+      | match goal with
+        | |- Post _ _ (mherr _ _ _ true _) => apply P_mherr_true
+        | |- Post _ _ (mherr _ _ _ _ _) => apply P_mherr; [ | intros ?u' ?Hp ?Ho ?Hq ]
+        | |- Post _ _ (match parseHost ?a ?b ?u ?d ?e with _ => _ end) =>
+            let E := fresh "Eph" in
+            destruct (parseHost a b u d e) as [?u' ?h|?u' ?e'] eqn:E;
+            [apply parseHost_Ok in E | apply parseHost_Er in E]; destruct E as (?Hp & ?Ho & ?Hq)
+        | |- Post _ _ ((if ?b then _ else _) _) => destruct b eqn:?
+        | |- Post _ _ (if ?b then _ else _) => destruct b eqn:?
+        | |- Post _ _ (match ?x with _ => _ end) => destruct x eqn:?
+        end ].
+
+  Ltac norm :=
+    unfold Post, J, Fin, wf, mk, addSegment, copy_base_auth in *;
+    cbn [m_state m_url m_eof is_some ov_ok u_path u_opaque u_query
+         set_input set_scheme set_username set_password set_host set_port set_path set_query set_fragment set_verrs set_sp] in *;
+    rewrite ?path_cleanDefaultPort, ?opaque_cleanDefaultPort, ?query_cleanDefaultPort in *;
+    cbn [m_state m_url m_eof is_some ov_ok u_path u_opaque u_query
+         set_input set_scheme set_username set_password set_host set_port set_path set_query set_fragment set_verrs set_sp] in *.
+
+  Ltac leaf :=
+    norm;
+    repeat match goal with |- context [if ?b then _ else _] => destruct b eqn:? end;
+    norm;
+    intros; repeat split; intros;
+    try discriminate; try congruence;
+    try (left; reflexivity); try (right; assumption);
+    try solve [ match goal with
+                | H : u_opaque ?y = true -> u_path ?y <> [] |- u_path ?x <> [] =>
+                    let E := fresh in intro E; apply H; congruence
+                end ];
+    try solve [eapply replaceLast_path; eassumption];
+    try solve [eapply replace_last_nonnil; eassumption];
+    try solve [exfalso; unfold rune_error in *; lia].
+
+  Ltac pstart m Hbase Hst HJ :=
+    destruct m as [st p e buf aF brF pwF u]; cbn [m_state] in Hst; subst st;
+    unfold J in HJ; cbn [m_state m_url m_eof] in HJ; cbv zeta in HJ;
+    destruct HJ as (He & Hq & HJ); subst e;
+    match goal with
+    | |- Post ?base _ _ => destruct base as [b|]; [ pose proof (Hbase b eq_refl) as Hwb | ]; clear Hbase
+    end;
+    match goal with
+    | |- Post _ ?override _ =>
+        destruct override as [ov|];
+        [ destruct HJ as (Hok & Hw & Hop & Hov); cbn [ov_ok] in Hok; try discriminate Hok;
+          destruct Hov as [Hov|Hov]; try discriminate Hov
+        | destruct HJ as (Hb & Hw) ]
+    end;
+    cbv beta iota zeta delta [step mk m_state m_ptr m_eof m_buf m_at m_br m_pw m_url overridden is_some isSpecialSchemeAndBackslash];
+    destruct (n_inp inp <=? p + 1)%Z eqn:En;
+    rewrite ?re_35, ?re_37, ?re_43, ?re_45, ?re_46, ?re_47, ?re_58, ?re_63, ?re_64, ?re_91, ?re_92, ?re_93,
+            ?re_alpha, ?re_alnum, ?re_digit;
+    cbn [negb andb orb];
+    rewrite ?orb_false_r, ?andb_false_r, ?orb_true_r, ?andb_true_r;
+    cbn [negb andb orb].
+
+  Lemma P_SchemeStart base override m : (forall b, base = Some b -> wf b) ->
+    m_state m = SchemeStart -> J base override m -> Post base override (stepf base override m).
+  Proof. intros Hbase Hst HJ. pstart m Hbase Hst HJ; pwalk; leaf. Qed.
+  Lemma P_Scheme base override m : (forall b, base = Some b -> wf b) ->
+    m_state m = Scheme -> J base override m -> Post base override (stepf base override m).
+  Proof. intros Hbase Hst HJ. pstart m Hbase Hst HJ; pwalk; leaf. Qed.
+  Lemma P_NoScheme base override m : (forall b, base = Some b -> wf b) ->
+    m_state m = NoScheme -> J base override m -> Post base override (stepf base override m).
+  Proof. intros Hbase Hst HJ. pstart m Hbase Hst HJ; pwalk; leaf. Qed.
+  Lemma P_OpaquePath base override m : (forall b, base = Some b -> wf b) ->
+    m_state m = OpaquePath -> J base override m -> Post base override (stepf base override m).
+  Proof. intros Hbase Hst HJ. pstart m Hbase Hst HJ; pwalk; leaf. Qed.
+  Lemma P_SpecialRelativeOrAuthority base override m : (forall b, base = Some b -> wf b) ->
+    m_state m = SpecialRelativeOrAuthority -> J base override m -> Post base override (stepf base override m).
+  Proof. intros Hbase Hst HJ. pstart m Hbase Hst HJ; pwalk; leaf. Qed.
+  Lemma P_SpecialAuthoritySlashes base override m : (forall b, base = Some b -> wf b) ->
+    m_state m = SpecialAuthoritySlashes -> J base override m -> Post base override (stepf base override m).
+  Proof. intros Hbase Hst HJ. pstart m Hbase Hst HJ; pwalk; leaf. Qed.
+  Lemma P_SpecialAuthorityIgnoreSlashes base override m : (forall b, base = Some b -> wf b) ->
+    m_state m = SpecialAuthorityIgnoreSlashes -> J base override m -> Post base override (stepf base override m).
+  Proof. intros Hbase Hst HJ. pstart m Hbase Hst HJ; pwalk; leaf. Qed.
+  Lemma P_PathOrAuthority base override m : (forall b, base = Some b -> wf b) ->
+    m_state m = PathOrAuthority -> J base override m -> Post base override (stepf base override m).
+  Proof. intros Hbase Hst HJ. pstart m Hbase Hst HJ; pwalk; leaf. Qed.
+  Lemma P_Authority base override m : (forall b, base = Some b -> wf b) ->
+    m_state m = Authority -> J base override m -> Post base override (stepf base override m).
+  Proof. intros Hbase Hst HJ. pstart m Hbase Hst HJ; pwalk; leaf. Qed.
+  Lemma P_HostSt base override m : (forall b, base = Some b -> wf b) ->
+    m_state m = HostSt -> J base override m -> Post base override (stepf base override m).
+  Proof. intros Hbase Hst HJ. pstart m Hbase Hst HJ; pwalk; leaf. Qed.
+  Lemma P_HostnameSt base override m : (forall b, base = Some b -> wf b) ->
+    m_state m = HostnameSt -> J base override m -> Post base override (stepf base override m).
+  Proof. intros Hbase Hst HJ. pstart m Hbase Hst HJ; pwalk; leaf. Qed.
+  Lemma P_File base override m : (forall b, base = Some b -> wf b) ->
+    m_state m = File -> J base override m -> Post base override (stepf base override m).
+  Proof. intros Hbase Hst HJ. pstart m Hbase Hst HJ; pwalk; leaf. Qed.
+  Lemma P_FileHost base override m : (forall b, base = Some b -> wf b) ->
+    m_state m = FileHost -> J base override m -> Post base override (stepf base override m).
+  Proof. intros Hbase Hst HJ. pstart m Hbase Hst HJ; pwalk; leaf. Qed.
+  Lemma P_FileSlash base override m : (forall b, base = Some b -> wf b) ->
+    m_state m = FileSlash -> J base override m -> Post base override (stepf base override m).
+  Proof. intros Hbase Hst HJ. pstart m Hbase Hst HJ; pwalk; leaf. Qed.
+  Lemma P_PortSt base override m : (forall b, base = Some b -> wf b) ->
+    m_state m = PortSt -> J base override m -> Post base override (stepf base override m).
+  Proof. intros Hbase Hst HJ. pstart m Hbase Hst HJ; pwalk; leaf. Qed.
+  Lemma P_PathSt base override m : (forall b, base = Some b -> wf b) ->
+    m_state m = PathSt -> J base override m -> Post base override (stepf base override m).
+  Proof. intros Hbase Hst HJ. pstart m Hbase Hst HJ; pwalk; leaf. Qed.
+  Lemma P_PathStart base override m : (forall b, base = Some b -> wf b) ->
+    m_state m = PathStart -> J base override m -> Post base override (stepf base override m).
+  Proof. intros Hbase Hst HJ. pstart m Hbase Hst HJ; pwalk; leaf. Qed.
+  Lemma P_QuerySt base override m : (forall b, base = Some b -> wf b) ->
+    m_state m = QuerySt -> J base override m -> Post base override (stepf base override m).
+  Proof. intros Hbase Hst HJ. pstart m Hbase Hst HJ; pwalk; leaf. Qed.
+  Lemma P_FragmentSt base override m : (forall b, base = Some b -> wf b) ->
+    m_state m = FragmentSt -> J base override m -> Post base override (stepf base override m).
+  Proof. intros Hbase Hst HJ. pstart m Hbase Hst HJ; pwalk; leaf. Qed.
+  Lemma P_Relative base override m : (forall b, base = Some b -> wf b) ->
+    m_state m = Relative -> J base override m -> Post base override (stepf base override m).
+  Proof. intros Hbase Hst HJ. pstart m Hbase Hst HJ; pwalk; leaf. Qed.
+  Lemma P_RelativeSlash base override m : (forall b, base = Some b -> wf b) ->
+    m_state m = RelativeSlash -> J base override m -> Post base override (stepf base override m).
+  Proof. intros Hbase Hst HJ. pstart m Hbase Hst HJ; pwalk; leaf. Qed.
+End Step.
